@@ -13,8 +13,15 @@
 (*   - """..."""  content verbatim, newlines allowed; the content cannot   *)
 (*                contain three double quotes in a row nor end with a      *)
 (*                double quote (the scanner closes at the first """).      *)
-(* Only the escapes \\ \' \" \n \t are modelled for the quoted form; a     *)
-(* literal using another escape is outside the model (LDecode not ok).     *)
+(* The quoted form follows Python's string-literal rules (ParseString      *)
+(* evaluates it with ast.literal_eval): \\ \' \" \n \t \a \b \f \r \v are   *)
+(* escapes; a backslash before ANY OTHER character is not an escape and    *)
+(* stays in the string together with that character - whatever the         *)
+(* character is (ASCII, Latin-1, any other BMP character, astral):         *)
+(* 'C:\<U+0414>' denotes C:\<U+0414>.  Octal, \x, \u, \U, \N and           *)
+(* backslash-newline are outside the model (LDecode not ok).               *)
+(* Form "sqraw" is the quoted form written with every backslash that can   *)
+(* be left alone left alone (the way users write Windows paths).           *)
 (***************************************************************************)
 EXTENDS Naturals, Sequences, FiniteSets, TLC
 
@@ -24,17 +31,27 @@ LBSL == 92
 LNL  == 10
 LTAB == 9
 
-LForms == {"dq", "sq", "tq"}
+LForms == {"dq", "sq", "tq", "sqraw"}
 
 Contains3DQ(s) == \E i \in 1..(Len(s) - 2) :
                      s[i] = LDQ /\ s[i + 1] = LDQ /\ s[i + 2] = LDQ
 HasChar(s, c) == \E i \in 1..Len(s) : s[i] = c
+
+(* Characters that, after a backslash, form an escape sequence (or one the  *)
+(* model leaves alone): quote, double quote, backslash, newline, digits,   *)
+(* a b f n r t v x N u U.                                                  *)
+EscapeLetters == {LSQ, LDQ, LBSL, LNL, 97, 98, 102, 110, 114, 116, 118,
+                  120, 78, 117, 85} \cup (48..57)
+(* The backslash at s[i] can be written alone: something follows it and    *)
+(* that something does not make an escape sequence.                        *)
+LoneOk(s, i) == i < Len(s) /\ s[i] = LBSL /\ s[i + 1] \notin EscapeLetters
 
 (* Which strings a form can carry (the "expressible" predicate).           *)
 CanCarry(form, s) ==
   CASE form = "dq" -> ~HasChar(s, LDQ) /\ ~HasChar(s, LNL)
     [] form = "tq" -> ~Contains3DQ(s) /\ (s = <<>> \/ s[Len(s)] # LDQ)
     [] form = "sq" -> TRUE
+    [] form = "sqraw" -> \E i \in 1..(Len(s) - 1) : LoneOk(s, i)
 
 Expressible(s) == \E f \in LForms : CanCarry(f, s)
 
@@ -46,10 +63,16 @@ SqEsc(c) == CASE c = LSQ -> <<LBSL, LSQ>> [] c = LBSL -> <<LBSL, LBSL>>
 
 (* Canonical way of writing s in a form (the harness may write it in any   *)
 (* other way the form allows; verdicts use LDecode of what was written).   *)
+RECURSIVE RawBody(_, _)
+RawBody(s, i) ==
+  IF i > Len(s) THEN <<>>
+  ELSE (IF LoneOk(s, i) THEN <<LBSL>> ELSE SqEsc(s[i])) \o RawBody(s, i + 1)
+
 LRender(form, s) ==
   CASE form = "dq" -> <<LDQ>> \o s \o <<LDQ>>
     [] form = "tq" -> <<LDQ, LDQ, LDQ>> \o s \o <<LDQ, LDQ, LDQ>>
     [] form = "sq" -> <<LSQ>> \o LMapCat(SqEsc, s) \o <<LSQ>>
+    [] form = "sqraw" -> <<LSQ>> \o RawBody(s, 1) \o <<LSQ>>
 
 LFormOf(text) ==
   IF Len(text) >= 6 /\ SubSeq(text, 1, 3) = <<LDQ, LDQ, LDQ>> THEN "tq"
@@ -70,7 +93,13 @@ SqBody(text, i, acc) ==   \* scanning the inside of '...' ; text[Len] is the clo
           [] e = LDQ  -> SqBody(text, i + 2, Append(acc, LDQ))
           [] e = 110  -> SqBody(text, i + 2, Append(acc, LNL))
           [] e = 116  -> SqBody(text, i + 2, Append(acc, LTAB))
-          [] OTHER    -> [ok |-> FALSE, val |-> acc]
+          [] e = 97   -> SqBody(text, i + 2, Append(acc, 7))
+          [] e = 98   -> SqBody(text, i + 2, Append(acc, 8))
+          [] e = 102  -> SqBody(text, i + 2, Append(acc, 12))
+          [] e = 114  -> SqBody(text, i + 2, Append(acc, 13))
+          [] e = 118  -> SqBody(text, i + 2, Append(acc, 11))
+          [] e \in EscapeLetters -> [ok |-> FALSE, val |-> acc]   \* unmodelled
+          [] OTHER    -> SqBody(text, i + 2, acc \o <<LBSL, e>>)  \* not an escape
     ELSE SqBody(text, i + 1, Append(acc, c))
 
 (* What a Logica literal denotes: [ok, form, val].                         *)
@@ -91,9 +120,12 @@ LDecode(text) ==
     [] OTHER -> [ok |-> FALSE, form |-> f, val |-> <<>>]
 
 (* Lemma checked by StrLitLemma: the canonical rendering decodes back.     *)
+(* "sqraw" is a way of writing the quoted form, not a lexical form.        *)
+LexForm(f) == IF f = "sqraw" THEN "sq" ELSE f
 LRoundTrip(form, s) ==
   CanCarry(form, s) =>
-    LET r == LDecode(LRender(form, s)) IN r.ok /\ r.form = form /\ r.val = s
+    LET r == LDecode(LRender(form, s))
+    IN r.ok /\ r.form = LexForm(form) /\ r.val = s
 
 -----------------------------------------------------------------------------
 (* The documented parameter form ${name}: a string containing it is        *)
